@@ -21,6 +21,7 @@ EXPLANATION_ADDED2 = ' (R8) ack-failure-stops-handoff (why the accept queue cann
 EXPLANATION = EXPLANATION + " Added while testing against seeded changes: " + EXPLANATION_ADDED + EXPLANATION_ADDED2
 EXPLANATION = EXPLANATION + " Round 10: R5 also requires the converted error to be propagated; (R11) outside the wind-down every error of the WebSocket sink / source is propagated with `?` up to the future polled by the task's select."
 EXPLANATION = EXPLANATION + " Rounds 12-13: R9 also requires that a dispatch error does not end the wind-down's loop over the buffered messages (leaving on the peer's Close is fine)."
+EXPLANATION = EXPLANATION + ' Rounds 14-15: (S8) the WebSocket adapters hand every message of the underlying stream to the task (no loop, no filter) and keep Close / Ping / Pong / Binary what they are.'
 ASSUMPTIONS = ["poll_fn closures are polled by the await that follows their creation",
                "tokio mpsc close()/recv() semantics (clean shutdown) as documented"]
 NOT_DECIDED = "completion of operations racing with teardown; enumeration of cut points; timing"
